@@ -87,6 +87,7 @@ fn pso_extra(params: &Value, n: u32) -> Extra<RealProblem> {
         }
         // after the inertia-weight update: the configured linear interpolation at the loop's current progress
         let mut wexact = 2;
+        let mut wsched = 2;
         if name == "Linear" {
             // the loop's current progress is iterations / n (what LessThanN::iterations(n) stores when it is evaluated);
             // it is recomputed here, independently of the stored Progress value
@@ -95,6 +96,10 @@ fn pso_extra(params: &Value, n: u32) -> Extra<RealProblem> {
                 let pr = it as f64 / n as f64;
                 wexact = (w.to_bits() == ((end - start) * pr + start).to_bits()) as i64;
                 let _ = progress;
+                // the weight in force during pass k is the one the schedule set at the end of pass k - 1 (progress
+                // (k - 1) / n), the start weight during pass 0
+                let sched = if it == 0 { start } else { (end - start) * ((it - 1) as f64 / n as f64) + start };
+                wsched = (w.to_bits() == sched.to_bits()) as i64;
             }
         }
         let pbr: Vec<Value> = pb.as_ref().map(|b| b.iter().map(obj_of).collect()).unwrap_or_default();
@@ -111,7 +116,7 @@ fn pso_extra(params: &Value, n: u32) -> Extra<RealProblem> {
         let x = json!({
             "np": xs.len(), "nv": vs.as_ref().map(|v| v.len() as i64).unwrap_or(-1),
             "npb": pb.as_ref().map(|b| b.len() as i64).unwrap_or(-1),
-            "vmax_ok": vmax_ok as i64, "moved": moved, "vexact": vexact, "wexact": wexact,
+            "vmax_ok": vmax_ok as i64, "moved": moved, "vexact": vexact, "wexact": wexact, "wsched": wsched,
             "pbr": pbr, "gbr": gbr,
         });
         p.xs = xs;
@@ -226,11 +231,10 @@ fn aco_extra(name: &str, params: &Value) -> Extra<TspProblem> {
                         let close = |x: f64, y: f64| (x - y).abs() <= 1e-9 * y.abs().max(1e-300);
                         if !minmax {
                             close(got, w)
-                        } else if reinforced[a][b] {
-                            // may have been clamped between two deposits on the same edge
-                            close(got, w.clamp(lo, hi)) || (got >= lo && got <= hi)
                         } else {
-                            close(got, w) || close(got, w.clamp(lo, hi))
+                            // evaporate, deposit (a tour crosses an edge at most once), then clamp -- for every trail
+                            let _ = reinforced[a][b];
+                            close(got, w.clamp(lo, hi))
                         }
                     })
                 }) as i64;
@@ -266,7 +270,7 @@ fn sa_extra<P: Instrumented>(params: &Value) -> Extra<P> {
 pub fn real_extra(name: &str, params: &Value, n: u32) -> (String, Extra<RealProblem>) {
     match name {
         "real_sa" => ("sa".to_string(), sa_extra::<RealProblem>(params)),
-        "real_pso" | "real_pso|evals" => ("pso".to_string(), pso_extra(params, n)),
+        "real_pso" | "real_pso|evals" | "real_pso|log4" => ("pso".to_string(), pso_extra(params, n)),
         "real_cro" => ("cro".to_string(), cro_extra(params)),
         _ => ("-".to_string(), Box::new(|_, _, _| (Vec::new(), json!({})))),
     }
